@@ -24,8 +24,8 @@ OPTIONS = [None, 'NoInject', 'With', 'NoWith', 'Ground']
 
 def plan(tier, seed):
   return {'nshards': 16, 'timeout_s': 5400 if tier == 'thorough' else 1200,
-          'params': {'n_programs': 60 if tier == 'thorough' else 4, 'max_k': 3 if tier == 'thorough' else 2,
-                     'max_assignments': 125 if tier == 'thorough' else 16}}
+          'params': {'n_programs': 60 if tier == 'thorough' else 8, 'max_k': 3 if tier == 'thorough' else 2,
+                     'max_assignments': 125 if tier == 'thorough' else 8}}
 
 
 def features_for(i):
@@ -69,6 +69,16 @@ def run_case(ctx, case_seed, i, max_k, max_assignments):
     return
   ctx.count('programs')
   rng.shuffle(inter)
+  if rng.random() < 0.6:
+    # plan annotations matter most for predicates the compiler would otherwise inline: single-rule, non-aggregating
+    n_rules = {}
+    for r in prog['rules']:
+      n_rules[r['pred']] = n_rules.get(r['pred'], 0) + 1
+    inter.sort(key=lambda p: 0 if (n_rules.get(p) == 1 and not prog['preds'][p].get('agg')) else 1)
+  headed = [p for p in inter if prog['preds'][p].get('combine_headed')]
+  if headed:
+    # a body-less predicate whose head is an aggregating expression is inlined with its local variables: always a candidate
+    inter = headed[:1] + [p for p in inter if p not in headed[:1]]
   inter = sorted(inter[:max_k], key=prog['order'].index)
   rules, bad = pipeline.parse_program(text)
   if bad:
@@ -77,7 +87,9 @@ def run_case(ctx, case_seed, i, max_k, max_assignments):
   ev = evaluator.Evaluator(prog, switches=dict(baseline))
   # predicates to observe: the annotated ones and up to three that read them (directly or not), latest first
   preds = [p for p in semantic.concrete_preds(prog) if prog['preds'][p]['kind'] != 'ext']
-  watch = list(dict.fromkeys(inter + preds[-3:]))
+  from vf.gen import ir as _ir
+  readers = [r['pred'] for r in prog['rules'] if _ir.called_preds_rule(r) & set(inter) and r['pred'] not in inter]
+  watch = list(dict.fromkeys(inter + readers[:3] + preds[-2:]))
   base = {}
   for p in watch:
     base[p] = pipeline.run(text, p, rules=rules)
